@@ -637,7 +637,10 @@ pub fn c07(o: &Opts, t: &mut Tracer) -> Value {
 
 fn c08_length(t: &mut Tracer, api: &str, n: u64, arrive: &[usize], outs: &[usize], body: &[u8], tail: &[u8]) {
     // the same length framing under different response versions / neighbouring header fields
-    let head = match ((n % 1000) as usize + arrive.len() + outs.len()) % 6 {
+    let head = match ((n % 1000) as usize + arrive.len() + outs.len()) % 8 {
+        // a redirect with a body: the body is read like any other before the flow moves on
+        6 => format!("HTTP/1.1 302 Found\r\nLocation: /next\r\nContent-Length: {}\r\n\r\n", n),
+        7 => format!("HTTP/1.1 30{} Moved\r\nContent-Length: {}\r\nLocation: http://b.test/x\r\nConnection: keep-alive\r\n\r\n", [1, 3, 7, 8][(n % 4) as usize], n),
         5 => format!("HTTP/1.1 407 Proxy Authentication Required\r\nContent-Length: {}\r\nProxy-Authenticate: Basic\r\n\r\n", n),
         0 => format!("HTTP/1.0 200 OK\r\nContent-Length: {}\r\n\r\n", n),
         1 => format!("HTTP/1.0 200 OK\r\nTransfer-Encoding: chunked\r\nContent-Length: {}\r\n\r\n", n),
@@ -702,7 +705,14 @@ fn c08_length(t: &mut Tracer, api: &str, n: u64, arrive: &[usize], outs: &[usize
 }
 
 fn c08_close(t: &mut Tracer, api: &str, http10: bool, rng: &mut StdRng, body: &[u8]) {
-    let head: &[u8] = if http10 { b"HTTP/1.0 200 OK\r\nServer: x\r\n\r\n" } else { b"HTTP/1.1 200 OK\r\n\r\n" };
+    // no framing header at all: delimited by the close, whatever else the server says about the connection
+    let heads: [&[u8]; 6] = [b"HTTP/1.1 200 OK\r\n\r\n", b"HTTP/1.1 200 OK\r\nConnection: keep-alive\r\n\r\n", b"HTTP/1.1 404 Not Found\r\nConnection: Keep-Alive, Upgrade\r\nServer: x\r\n\r\n",
+                            b"HTTP/1.1 200 OK\r\nKeep-Alive: timeout=5\r\nConnection: keep-alive\r\n\r\n", b"HTTP/1.1 500 Oops\r\nConnection: close\r\n\r\n", b"HTTP/1.1 200 OK\r\nTransfer-Encoding: gzip\r\n\r\n"];
+    let heads10: [&[u8]; 3] = [b"HTTP/1.0 200 OK\r\nServer: x\r\n\r\n", b"HTTP/1.0 200 OK\r\nConnection: keep-alive\r\n\r\n", b"HTTP/1.0 200 OK\r\nTransfer-Encoding: chunked\r\n\r\n"];
+    let head: &[u8] = if http10 { heads10[(t.cases % 3) as usize] } else { heads[(t.cases % 6) as usize] };
+    if head.windows(10).any(|w| w.eq_ignore_ascii_case(b"keep-alive")) {
+        t.class("close:keep-alive-promised");
+    }
     let mut r = match recv_body(api, head) {
         Some(r) => r,
         None => {
